@@ -123,6 +123,9 @@ func (g *docgen) signableStep() *dv {
 	case 1: // plugins only
 	default:
 		m.set("command", dStr(sx.Pick(g.rng, g.strPool)))
+		if g.rng.Chance(8) {
+			m.set("command", dStr(sx.Pick(g.rng, []string{"line1\r\nline2", "a\rb", "tab\tsep", "trail\n", "\r\n", "x\u2028y"})))
+		}
 	}
 	if !m.has("command") && !m.has("commands") || g.rng.Chance(50) {
 		pl := g.plugins()
